@@ -41,3 +41,8 @@ func (c *UDPConn) VLifetime() time.Duration { return c.lifetime() }
 
 // VRefreshInterval is the interval the allocation refresh timer was created with.
 func (c *UDPConn) VRefreshInterval() time.Duration { return c.refreshAllocTimer.interval }
+
+// The same for a TCP allocation.
+func (a *TCPAllocation) VNonce() []byte                  { return a.nonce() }
+func (a *TCPAllocation) VLifetime() time.Duration        { return a.lifetime() }
+func (a *TCPAllocation) VRefreshInterval() time.Duration { return a.refreshAllocTimer.interval }
